@@ -70,12 +70,19 @@ func implG(top hv.L) hv.Val {
 	st := cluster_conf.ClientIpOnly
 	hdr := ""
 	sticky := modeI == 2
-	mode := cluster_conf.BalanceModeWrr
+	// the balance mode as an operator may spell it; the real conf check (as run by the cluster_conf loader)
+	// normalises it before SetGslbBasic
+	spell := (rmax + cross + len(gc)) % 3
+	mode := []string{"WRR", "wrr", "Wrr"}[spell]
 	if modeI == 1 {
-		mode = cluster_conf.BalanceModeWlc
+		mode = []string{"WLC", "wlc", "Wlc"}[spell]
 	}
-	bal.SetGslbBasic(cluster_conf.GslbBasicConf{CrossRetry: &cross, RetryMax: &rmax,
-		HashConf: &cluster_conf.HashConf{HashStrategy: &st, HashHeader: &hdr, SessionSticky: &sticky}, BalanceMode: &mode})
+	gb := cluster_conf.GslbBasicConf{CrossRetry: &cross, RetryMax: &rmax,
+		HashConf: &cluster_conf.HashConf{HashStrategy: &st, HashHeader: &hdr, SessionSticky: &sticky}, BalanceMode: &mode}
+	if err := cluster_conf.GslbBasicConfCheck(&gb); err != nil {
+		return hv.Err(8)
+	}
+	bal.SetGslbBasic(gb)
 	find := func(sub string, id int) *backend.BfeBackend {
 		for _, b := range bal_gslb.VerifC04Backends(bal)[sub] {
 			if b.Port-1000 == id {
@@ -218,6 +225,12 @@ func mkConf(v hv.Val) cluster_table_conf.SubClusterBackend {
 		id, w := int(hv.AsInt(p[0])), int(hv.AsInt(p[1]))
 		name := fmt.Sprintf("b%d", id)
 		addr := fmt.Sprintf("10.0.%d.%d", id/256, id%256)
+		switch id % 3 {
+		case 1:
+			addr = fmt.Sprintf("fd00::%x", id+1)
+		case 2:
+			addr = fmt.Sprintf("h-%d.example", id)
+		}
 		port := 8000 + id
 		conf = append(conf, &cluster_table_conf.BackendConf{Name: &name, Addr: &addr, Port: &port, Weight: &w})
 	}
@@ -497,5 +510,5 @@ func gen(r *hv.Rng, i int, tier string) (string, hv.Val) {
 }
 
 func main() {
-	hv.Main(&hv.Spec{Prop: "C04", Gen: gen, Impl: impl, NQuick: 6000, NThorough: 300000})
+	hv.Main(&hv.Spec{Prop: "C04", Gen: gen, Impl: impl, NQuick: 5000, NThorough: 300000})
 }
